@@ -33,6 +33,8 @@ type Case struct {
 	// every centroid divided by 2^Exp (a signed area by 4^Exp) before it is compared;
 	// both are exact while cubes of the coordinates stay finite and normal.
 	Exp int `json:"exp,omitempty"`
+	// Div > 1: every x and y is divided by Div (in float64) first: decimal ordinates.
+	Div int `json:"div,omitempty"`
 }
 
 var layouts = []geom.Layout{geom.XY, geom.XYZ, geom.XYM, geom.XYZM, geom.Layout(5)}
@@ -237,6 +239,9 @@ func genCase(t *rapid.T) Case {
 			c.Class = "multi"
 		}
 	}
+	if rapid.IntRange(0, 3).Draw(t, "div") == 0 {
+		c.Div = rapid.SampledFrom([]int{10, 10, 3, 7, 100, 1000, 60000}).Draw(t, "divby")
+	}
 	if rapid.IntRange(0, 4).Draw(t, "scaled") == 0 {
 		c.Exp = rapid.SampledFrom([]int{280, -280, 140, -140, 40, -40}).Draw(t, "exp")
 		if rapid.Bool().Draw(t, "expany") {
@@ -253,7 +258,7 @@ func flatOf(ps []pt, l geom.Layout) []float64 {
 	s := l.Stride()
 	out := make([]float64, 0, len(ps)*s)
 	for i, p := range ps {
-		out = append(out, math.Ldexp(float64(p[0]), curExp), math.Ldexp(float64(p[1]), curExp))
+		out = append(out, math.Ldexp(val(p[0]), curExp), math.Ldexp(val(p[1]), curExp))
 		for d := 2; d < s; d++ {
 			out = append(out, float64(i*3+d)*1e7)
 		}
@@ -265,7 +270,20 @@ func flatOf(ps []pt, l geom.Layout) []float64 {
 // geographic codes among them must not change an answer).
 func sridOf(n int) int { return []int{0, 4326, 3857, 4269, 0, 4258, 27700}[n%7] }
 
-func ep(p pt) exact.P2 { return exact.Pt(float64(p[0]), float64(p[1])) }
+// val is a whole-number ordinate of the case as the float64 the library gets (before the
+// power-of-two scaling): itself, or divided by the case's Div - a decimal or a third
+// instead of a short binary fraction. The exact references work on that double.
+func val(v int64) float64 {
+	if curDiv > 1 {
+		return float64(v) / float64(curDiv)
+	}
+	return float64(v)
+}
+
+// curDiv is Case.Div of the case being evaluated.
+var curDiv int
+
+func ep(p pt) exact.P2 { return exact.Pt(val(p[0]), val(p[1])) }
 
 var u53 = new(big.Rat).SetFrac(big.NewInt(1), new(big.Int).Lsh(big.NewInt(1), 53))
 
@@ -327,10 +345,10 @@ func propPoints(c Case, l geom.Layout) error {
 	n := int64(len(ps))
 	sx, sy, ax, ay := new(big.Rat), new(big.Rat), new(big.Rat), new(big.Rat)
 	for _, p := range ps {
-		sx.Add(sx, exact.R(float64(p[0])))
-		sy.Add(sy, exact.R(float64(p[1])))
-		ax.Add(ax, rabs(exact.R(float64(p[0]))))
-		ay.Add(ay, rabs(exact.R(float64(p[1]))))
+		sx.Add(sx, exact.R(val(p[0])))
+		sy.Add(sy, exact.R(val(p[1])))
+		ax.Add(ax, rabs(exact.R(val(p[0]))))
+		ay.Add(ay, rabs(exact.R(val(p[1]))))
 	}
 	nn := big.NewRat(n, 1)
 	wx, wy := exact.Quo(sx, nn), exact.Quo(sy, nn)
@@ -421,6 +439,15 @@ func lineRef(lines [][]pt) (wx, wy, tx, ty *big.Rat, ok bool) {
 			tmy := new(big.Float).SetPrec(prec).Mul(ll, my)
 			sx.Add(sx, tmx)
 			sy.Add(sy, tmy)
+			if curDiv > 1 {
+				// (on decimal ordinates the midpoint's sum rounds by a fraction of the
+				// ordinates, not of their sum)
+				amx := exact.F(exact.Quo(exact.Add(rabs(p.X), rabs(q.X)), big.NewRat(2, 1)))
+				amy := exact.F(exact.Quo(exact.Add(rabs(p.Y), rabs(q.Y)), big.NewRat(2, 1)))
+				ax.Add(ax, new(big.Float).SetPrec(prec).Mul(ll, amx))
+				ay.Add(ay, new(big.Float).SetPrec(prec).Mul(ll, amy))
+				continue
+			}
 			ax.Add(ax, new(big.Float).SetPrec(prec).Abs(tmx))
 			ay.Add(ay, new(big.Float).SetPrec(prec).Abs(tmy))
 		}
@@ -566,6 +593,13 @@ func propPolygons(c Case, l geom.Layout, polys [][][]pt, what string) error {
 					a, b := ep(r[i]), ep(r[i+1])
 					n++
 					ar := exact.Add(rabs(exact.Mul(exact.Sub(a.X, base.X), exact.Sub(b.Y, base.Y))), rabs(exact.Mul(exact.Sub(b.X, base.X), exact.Sub(a.Y, base.Y))))
+					// the sum of the three ordinates is exact on whole numbers; on decimal
+					// ordinates it rounds, by a fraction of the ordinates, not of their sum
+					if curDiv > 1 {
+						sumx.Add(sumx, exact.Mul(ar, exact.Add(exact.Add(rabs(base.X), rabs(a.X)), rabs(b.X))))
+						sumy.Add(sumy, exact.Mul(ar, exact.Add(exact.Add(rabs(base.Y), rabs(a.Y)), rabs(b.Y))))
+						continue
+					}
 					sumx.Add(sumx, exact.Mul(ar, rabs(exact.Add(exact.Add(base.X, a.X), b.X))))
 					sumy.Add(sumy, exact.Mul(ar, rabs(exact.Add(exact.Add(base.Y, a.Y), b.Y))))
 				}
@@ -643,8 +677,8 @@ func propRings(c Case, l geom.Layout) error {
 
 func prop(c Case) error {
 	l := geom.Layout(c.Layout)
-	curExp = c.Exp
-	defer func() { curExp = 0 }()
+	curExp, curDiv = c.Exp, c.Div
+	defer func() { curExp, curDiv = 0, 0 }()
 	switch c.Mode {
 	case "points":
 		return propPoints(c, l)
